@@ -77,8 +77,20 @@ def scenario(tier, steps, four=False, lean=False, two_files=False, mixed=False):
                 r = b.run("create", root="R", h=fmts)
                 b.require(r.exit == 10, "without-dr-create-10", str(r))
                 return
+            pre = "none"
+            if moves and step == 0 and lean is False and not four:
+                # another command may have been run on the renamed tree before rename detection is asked for
+                pre = sym.choose("command_before_dr", ["none", "plain-create", "create-sf-new-path", "verify"])
+                if pre == "plain-create":
+                    r0 = b.run("create", root="R", h=fmts)
+                    b.require(r0.exit == 10, "without-dr-create-10", str(r0))
+                elif pre == "create-sf-new-path":
+                    r0 = b.run("create", root="R", h=fmts, sf=[sorted(moves.values())[0]])
+                    b.require(r0.exit == 0, "setup-create", str(r0))
+                elif pre == "verify":
+                    b.run("verify", root="R")
             r = b.run("create", root="R", h=fmts, dr=True)
-            tag = "create -dr after %s: exit %s exc %s" % ({rel(k): rel(v) for k, v in moves.items()}, r.exit, r.exc)
+            tag = "create -dr (before it: %s) after %s: exit %s exc %s" % (pre, {rel(k): rel(v) for k, v in moves.items()}, r.exit, r.exc)
             b.require(r.exit == 0 and r.exc is None, "create-dr-exit-0", tag)
             b.require(not missing_lines(r), "renamed-reported-missing", "%s: %s" % (tag, missing_lines(r)))
             m = b.manifests("R")[-1]
